@@ -254,7 +254,8 @@ pub fn families(thorough: bool) -> Vec<Hello> {
     for sub in subsets(&base, 1, if thorough { 6 } else { 5 }) {
         cipher_lists.extend(perms(&sub));
     }
-    for n in [98u16, 99, 100, 101, 150] {
+    // incl. counts at and beyond 256 (a count kept in 8 bits wraps there)
+    for n in [98u16, 99, 100, 101, 150, 255, 256, 257, 300, 355, 511, 512] {
         cipher_lists.push((0..n).map(|i| 0x0100 + i).collect());
         let mut with_grease: Vec<u16> = (0..n).map(|i| 0x0100 + i).collect();
         with_grease.insert(1, 0x1a1a);
@@ -293,7 +294,7 @@ pub fn families(thorough: bool) -> Vec<Hello> {
     for sub in subsets(&pool, 0, if thorough { 5 } else { 4 }) {
         ext_lists.extend(perms(&sub));
     }
-    for n in [98u16, 99, 100, 101] {
+    for n in [98u16, 99, 100, 101, 255, 256, 257, 300, 512] {
         ext_lists.push((0..n).map(|i| Ext::Other(0x4000 + i, vec![])).collect());
         let mut l: Vec<Ext> = (0..n).map(|i| Ext::Other(0x4000 + i, vec![])).collect();
         l.insert(0, Ext::Sni(s("x.y")));
